@@ -3,12 +3,12 @@ CONSTANTS
   Conns = {c1, c2}
   Burst = 4
   R = 2
-  Chunk = 3
+  Chunk = 5
   Horizon = 6
   PerConn = FALSE
-  NoWait = TRUE
+  NoWait = FALSE
   MaxWait = 0
   Batch = 0
-  BigUncharged = FALSE
+  BigUncharged = TRUE
 INVARIANT RateBound
 CHECK_DEADLOCK FALSE
